@@ -1,0 +1,232 @@
+//!
+//! Verification shim, compiled only with `--cfg desync_verif` (never part of a normal build).
+//!
+//! Replaces `std::sync` / `std::thread` for the rest of the crate by wrappers over the `shuttle`
+//! controlled runtime (or over `std` itself with `--cfg desync_verif_real`), and records every
+//! critical section (mutex guard drop) with a snapshot of the protected data in a per-execution log.
+//! Also provides a `lazy_static!` whose values live for one execution and are never destructed.
+//!
+
+#[cfg(not(desync_verif_real))]
+pub use shuttle as rt;
+#[cfg(desync_verif_real)]
+pub mod rt {
+    pub use std::sync;
+    pub use std::thread;
+}
+
+use std::sync::atomic::{AtomicU64, Ordering};
+
+/// One logged event
+#[derive(Clone, Debug)]
+pub struct Event {
+    pub task:   usize,
+    pub kind:   &'static str,
+    pub class:  String,
+    pub id:     usize,
+    pub snap:   String
+}
+
+/// Log of the current execution
+pub static LOG: std::sync::Mutex<Vec<Event>> = std::sync::Mutex::new(Vec::new());
+
+/// Execution epoch: bumped by the harness at the start of every execution
+pub static EPOCH: AtomicU64 = AtomicU64::new(0);
+
+static IDS: std::sync::Mutex<Option<std::collections::HashMap<(u64, String), usize>>> = std::sync::Mutex::new(None);
+static LOGGING: std::sync::atomic::AtomicBool = std::sync::atomic::AtomicBool::new(true);
+
+/// Identifier of the running task (creation ordinal under shuttle; 0 for real threads unless registered)
+#[cfg(not(desync_verif_real))]
+pub fn me() -> usize { shuttle::current::me().into() }
+#[cfg(desync_verif_real)]
+pub fn me() -> usize { REAL_TASK.with(|t| t.get()) }
+#[cfg(desync_verif_real)]
+thread_local! { pub static REAL_TASK: std::cell::Cell<usize> = std::cell::Cell::new(0); }
+#[cfg(desync_verif_real)]
+static NEXT_REAL_TASK: std::sync::atomic::AtomicUsize = std::sync::atomic::AtomicUsize::new(1);
+
+/// Appends an event to the log
+pub fn log(kind: &'static str, class: &str, id: usize, snap: String) {
+    if !LOGGING.load(Ordering::SeqCst) { return; }
+    let task = me();
+    if let Ok(mut l) = LOG.lock() { l.push(Event { task, kind, class: class.to_string(), id, snap }); }
+}
+
+/// Switches event logging on or off (off for volume runs that only use the monitors)
+pub fn set_logging(on: bool) { LOGGING.store(on, Ordering::SeqCst); }
+
+/// Starts a new execution: fresh statics, fresh ids, empty log
+pub fn new_execution() {
+    EPOCH.fetch_add(1, Ordering::SeqCst);
+    if let Ok(mut l) = LOG.lock() { l.clear(); }
+}
+
+/// Takes the log of the current execution
+pub fn take_log() -> Vec<Event> {
+    match LOG.lock() { Ok(mut l) => std::mem::take(&mut *l), Err(p) => std::mem::take(&mut *p.into_inner()) }
+}
+
+fn next_id(class: &str) -> usize {
+    let mut ids = match IDS.lock() { Ok(i) => i, Err(p) => p.into_inner() };
+    let ids     = ids.get_or_insert_with(Default::default);
+    let e       = ids.entry((EPOCH.load(Ordering::SeqCst), class.to_string())).or_insert(0);
+    *e += 1;
+    *e - 1
+}
+
+pub mod sync {
+    pub use super::rt::sync::{mpsc, LockResult, TryLockResult, PoisonError, TryLockError};
+    pub use std::sync::{Arc, Weak};
+    use super::rt;
+    use std::ops::{Deref, DerefMut};
+    use std::panic::Location;
+
+    ///
+    /// Logging mutex: the class is the protected type plus the file that created it, the id is the creation ordinal within the execution
+    ///
+    pub struct Mutex<T> { class: String, id: usize, inner: rt::sync::Mutex<T> }
+    pub struct MutexGuard<'a, T> { m: &'a Mutex<T>, g: Option<rt::sync::MutexGuard<'a, T>> }
+
+    impl<T> Mutex<T> {
+        #[track_caller]
+        pub fn new(t: T) -> Mutex<T> {
+            let file    = Location::caller().file().rsplit('/').next().unwrap_or("").to_string();
+            let class   = crate::scheduler::verif_class(std::any::type_name::<T>(), &file);
+            let id      = super::next_id(&class);
+            Mutex { class, id, inner: rt::sync::Mutex::new(t) }
+        }
+
+        pub fn id(&self) -> usize { self.id }
+        pub fn class(&self) -> &str { &self.class }
+
+        pub fn lock(&self) -> LockResult<MutexGuard<'_, T>> {
+            match self.inner.lock() {
+                Ok(g)   => Ok(MutexGuard { m: self, g: Some(g) }),
+                Err(p)  => Err(PoisonError::new(MutexGuard { m: self, g: Some(p.into_inner()) })),
+            }
+        }
+
+        pub fn try_lock(&self) -> TryLockResult<MutexGuard<'_, T>> {
+            match self.inner.try_lock() {
+                Ok(g)                           => Ok(MutexGuard { m: self, g: Some(g) }),
+                Err(TryLockError::WouldBlock)   => { super::log("tryfail", &self.class, self.id, String::new()); Err(TryLockError::WouldBlock) },
+                Err(TryLockError::Poisoned(p))  => Err(TryLockError::Poisoned(PoisonError::new(MutexGuard { m: self, g: Some(p.into_inner()) }))),
+            }
+        }
+    }
+
+    impl<'a, T> Deref for MutexGuard<'a, T> { type Target = T; fn deref(&self) -> &T { self.g.as_ref().unwrap() } }
+    impl<'a, T> DerefMut for MutexGuard<'a, T> { fn deref_mut(&mut self) -> &mut T { self.g.as_mut().unwrap() } }
+
+    impl<'a, T> Drop for MutexGuard<'a, T> {
+        fn drop(&mut self) {
+            if let Some(g) = self.g.take() {
+                let snap = crate::scheduler::verif_probe(&self.m.class, &*g as *const T as *const ());
+                super::log("cs", &self.m.class, self.m.id, snap);
+                drop(g);
+            }
+        }
+    }
+
+    pub struct Condvar { inner: rt::sync::Condvar }
+
+    impl Condvar {
+        pub fn new() -> Condvar { Condvar { inner: rt::sync::Condvar::new() } }
+
+        pub fn wait<'a, T>(&self, mut guard: MutexGuard<'a, T>) -> LockResult<MutexGuard<'a, T>> {
+            let m = guard.m;
+            let g = guard.g.take().unwrap();
+            super::log("wait", &m.class, m.id, String::new());
+            let r = match self.inner.wait(g) {
+                Ok(g)   => Ok(MutexGuard { m, g: Some(g) }),
+                Err(p)  => Err(PoisonError::new(MutexGuard { m, g: Some(p.into_inner()) })),
+            };
+            super::log("woken", &m.class, m.id, String::new());
+            r
+        }
+
+        pub fn notify_one(&self) { self.inner.notify_one() }
+        pub fn notify_all(&self) { self.inner.notify_all() }
+    }
+}
+
+pub mod thread {
+    pub use super::rt::thread::{current, park, panicking, yield_now, sleep, Thread};
+    use super::rt;
+    use std::sync::Arc;
+    use std::sync::atomic::{AtomicBool, Ordering};
+
+    pub struct JoinHandle<T> { inner: rt::thread::JoinHandle<T>, fin: Arc<AtomicBool> }
+
+    impl<T> JoinHandle<T> {
+        pub fn join(self) -> std::thread::Result<T> { self.inner.join() }
+        pub fn is_finished(&self) -> bool { self.fin.load(Ordering::SeqCst) }
+        pub fn thread(&self) -> &Thread { self.inner.thread() }
+    }
+
+    /// Sets the finished flag when the thread's closure ends, normally or by unwinding
+    struct Fin(Arc<AtomicBool>);
+    impl Drop for Fin { fn drop(&mut self) { self.0.store(true, Ordering::SeqCst); } }
+
+    pub struct Builder { name: Option<String> }
+
+    impl Builder {
+        pub fn new() -> Builder { Builder { name: None } }
+        pub fn name(mut self, n: String) -> Builder { self.name = Some(n); self }
+
+        pub fn spawn<F, T>(self, f: F) -> std::io::Result<JoinHandle<T>>
+        where F: FnOnce() -> T + Send + 'static, T: Send + 'static {
+            let fin     = Arc::new(AtomicBool::new(false));
+            let fin2    = Fin(fin.clone());
+            let mut b   = rt::thread::Builder::new();
+            if let Some(n) = self.name { b = b.name(n); }
+            #[cfg(desync_verif_real)]
+            let task    = super::NEXT_REAL_TASK.fetch_add(1, Ordering::SeqCst);
+            let inner   = b.spawn(move || {
+                #[cfg(desync_verif_real)]
+                super::REAL_TASK.with(|t| t.set(task));
+                let _fin = fin2;
+                f()
+            })?;
+            Ok(JoinHandle { inner, fin })
+        }
+    }
+
+    pub fn spawn<F, T>(f: F) -> JoinHandle<T>
+    where F: FnOnce() -> T + Send + 'static, T: Send + 'static {
+        Builder::new().spawn(f).unwrap()
+    }
+}
+
+///
+/// Per-execution lazy statics that are never destructed (std's `lazy_static` never destructs either; shuttle's own
+/// are dropped at the end of an execution, which breaks statics whose `Drop` uses other statics)
+///
+pub fn per_execution<T: 'static + Sync>(name: &'static str, init: impl FnOnce() -> T) -> &'static T {
+    use std::collections::HashMap;
+    static REG: std::sync::Mutex<Option<HashMap<(u64, &'static str), usize>>> = std::sync::Mutex::new(None);
+
+    let key = (EPOCH.load(Ordering::SeqCst), name);
+    {
+        let mut reg = match REG.lock() { Ok(r) => r, Err(p) => p.into_inner() };
+        if let Some(p) = reg.get_or_insert_with(HashMap::new).get(&key) { return unsafe { &*(*p as *const T) }; }
+    }
+
+    let val: &'static T = Box::leak(Box::new(init()));
+    let mut reg = match REG.lock() { Ok(r) => r, Err(p) => p.into_inner() };
+    let reg     = reg.get_or_insert_with(HashMap::new);
+    let p       = *reg.entry(key).or_insert(val as *const T as usize);
+    unsafe { &*(p as *const T) }
+}
+
+#[macro_export]
+macro_rules! lazy_static {
+    ($(#[$attr:meta])* static ref $N:ident : $T:ty = $e:expr; $($t:tt)*) => {
+        #[allow(non_camel_case_types)] #[allow(dead_code)] struct $N { _p: () }
+        #[allow(dead_code)] static $N: $N = $N { _p: () };
+        impl std::ops::Deref for $N { type Target = $T; fn deref(&self) -> &$T { $crate::verif::per_execution::<$T>(stringify!($N), || $e) } }
+        lazy_static!($($t)*);
+    };
+    () => ()
+}
